@@ -192,6 +192,16 @@ func init() {
 		for _, c := range []seqCfg{{"bse_writing_max10", 2, 0, 1, 10}, {"bse_accessing_max2", 3, 0, 1, 2}} {
 			js = append(js, mk("c03.sync."+c.name, rootPkg, "ZZ_C03_Sync", with(cfgParams(c.exp, c.ref, c.bound, c.max, 0, 0), "steps", 1), func(b *Bounds) { b.Unwind = 70 }))
 		}
+		// over schedules: two threads, one operation each (loader-backed Get and cancelled computations included), on a key
+		// whose entry has expired but has not been swept: no result may contain the dead value (it is absent in the
+		// sequential specification the history is checked against — C02's harness, configuration "expired_unswept")
+		pp := 1
+		if tier == "thorough" {
+			pp = 2
+		}
+		js = append(js, mk(sprintf("c03.par.expired_unswept.t2.ops1.pre%d", pp), rootPkg, "ZZ_C02_Linearizable",
+			map[string]int{"threads": 2, "ops_per_thread": 1, "samekey": 1, "canary": 0, "cfg": 1},
+			func(b *Bounds) { b.Unwind = 60; b.Preempt = pp; b.Race = true; b.MaxPaths = 8000000; b.MaxWallS = 3000 }))
 		j := mk("c03.canary", rootPkg, "ZZ_C03_ExpiredUnswept", with(cfgParams(2, 0, 0, 10, 1, 0), "op", 0, "canary", 1), func(b *Bounds) { b.Unwind = 8 })
 		j.Canary = "c03.canary"
 		js = append(js, j)
@@ -693,6 +703,12 @@ func init() {
 		}
 		js = append(js, mk(sprintf("c08.mixed.get_vs_bulkget.pre%d", mp), rootPkg, "ZZ_C08_Mixed", nil,
 			func(b *Bounds) { b.Unwind = 60; b.Preempt = mp; b.Race = true; b.MapOrders = 2; b.MaxPaths = 8000000; b.MaxWallS = 3000 }))
+		rp := 2
+		if tier == "thorough" {
+			rp = 3
+		}
+		js = append(js, mk(sprintf("c08.retry_after_failure.pre%d", rp), rootPkg, "ZZ_C08_Retry", nil,
+			func(b *Bounds) { b.Unwind = 60; b.Preempt = rp; b.Race = true; b.MaxPaths = 8000000; b.MaxWallS = 3000 }))
 		c := mk("c08.canary", rootPkg, "ZZ_C08_SingleFlight", map[string]int{"callers": 2, "canary": 1}, func(b *Bounds) { b.Unwind = 60; b.Preempt = 0; b.Race = true })
 		c.Canary = "c08.canary"
 		return append(js, c)
